@@ -246,6 +246,26 @@ def check_rec(ctx):
             ctx.check(ok, inst, "PROVENANCE", b.path, what, b.where(n), {"amount": amt.show()[:160]})
 
 
+def check_size_functions(ctx):
+    """what is reserved when a record is created (FeoxStore::calculate_record_size(key.len(), value_len)) and what is released
+    when it goes away (Record::calculate_size()) must be the same number: struct size + key bytes + value length, with the
+    key bytes taken from the key buffer itself (the u16 key_len field truncates long keys)"""
+    inst = "C13.size"
+    a = ctx.fn("FeoxStore::calculate_record_size", inst)
+    b = ctx.fn("Record::calculate_size", inst)
+    if a is not None:
+        v = A.tracer(a).node_value(a.defs[0][0]) if len(a.defs.get(0, [])) == 1 else None
+        ok = v is not None and v.has_arg(idx=2) and v.has_arg(idx=3) and v.has_call("mem::size_of") and not any(x.k == "bin" and not x.extra.startswith("Add") for x in v.walk())
+        ctx.check(ok, inst, "PIN", a.path, "reserved size = size_of::<Record>() + key_len + value_len", None, {"expr": v.show()[:100] if v else None})
+    if b is not None:
+        v = A.tracer(b).node_value(b.defs[0][0]) if len(b.defs.get(0, [])) == 1 else None
+        keyterm = v is not None and any(x.k == "call" and (path_matches(x.extra, "Vec::capacity") or path_matches(x.extra, "Vec::len")) and x.has_field("Record", "key") for x in v.walk())
+        ctx.check(keyterm, inst, "SIBLING", b.path, "released size takes the key bytes from the key buffer (capacity / len of Record.key)", None, {"expr": v.show()[:100] if v else None})
+        ctx.check(v is not None and not v.has_field("Record", "key_len"), inst, "FORBID", b.path, "the truncating u16 key_len field is not used for memory accounting", None)
+        ok = v is not None and v.has_field("Record", "value_len") and v.has_call("mem::size_of") and not any(x.k == "bin" and not x.extra.startswith("Add") for x in v.walk())
+        ctx.check(ok, inst, "SIBLING", b.path, "released size = size_of::<Record>() + key bytes + value_len (same shape as the reserved size)", None)
+
+
 def check_limit(ctx):
     inst = "C13.limit"
     b = ctx.fn("FeoxStore::reserve_memory", inst)
@@ -311,6 +331,7 @@ def check_limit(ctx):
 
 
 def check(ctx):
+    check_size_functions(ctx)
     check_new(ctx)
     check_repl(ctx)
     check_rem(ctx)
